@@ -79,9 +79,15 @@ def same_shape(vals):
 
 
 def generalise_value(self, M, vals, stores, loc, path, leaves, force, tid_hint=None):
-    """value for the merged state M standing for vals[i] (valid in stores[i])"""
+    """value for the merged state M standing for vals[i] (valid in stores[i]).
+    `force`: set of (loc, path) leaf addresses that must be generalised even when all
+    incoming values agree (leaves modified by a loop body)."""
     v0 = vals[0]
-    if not force:
+    forced_here = (loc, path) in force
+    sub_forced = forced_here or any(f[0] == loc and f[1][:len(path)] == path for f in force)
+    if not sub_forced:
+        if all(v is v0 for v in vals[1:]) and not isinstance(v0, TopV):
+            return v0
         k0 = v0.key(stores[0])
         if all(v.key(s) == k0 for v, s in zip(vals[1:], stores[1:])) and not isinstance(v0, TopV):
             return v0
@@ -94,19 +100,39 @@ def generalise_value(self, M, vals, stores, loc, path, leaves, force, tid_hint=N
             return IntV(V(x))
         return TopV(tid_hint)
     t = type(v0)
+
+    def differs(get):
+        if forced_here:
+            return True
+        r0 = get(v0)
+        if all(get(v) == r0 for v in vals[1:]):
+            return False        # the very same expression in every state (stores may normalise it differently)
+        k0 = stores[0].nf(r0)
+        return any(s.nf(get(v)) != k0 for v, s in zip(vals[1:], stores[1:]))
+
     if t is IntV:
+        if not differs(lambda v: v.e):
+            return v0
         x = fresh('g')
         leaves.append(Leaf(x, loc, path, 'int', 'int', None, [v.e for v in vals]))
         return IntV(V(x))
     if t is PtrV:
+        if not differs(lambda v: v.off):
+            return v0
         x = fresh('p')
         leaves.append(Leaf(x, loc, path, 'off', 'ptr', v0.r, [v.off for v in vals]))
         return PtrV(v0.r, V(x))
     if t is SliceV:
-        x, n = fresh('p'), fresh('n')
-        leaves.append(Leaf(x, loc, path, 'soff', 'ptr', v0.ptr.r, [v.ptr.off for v in vals]))
-        leaves.append(Leaf(n, loc, path, 'slen', 'int', None, [v.n for v in vals]))
-        return SliceV(PtrV(v0.ptr.r, V(x)), V(n), v0.esz)
+        po, no = v0.ptr.off, v0.n
+        if differs(lambda v: v.ptr.off) or (loc, path + (('s', 'off'),)) in force:
+            x = fresh('p')
+            leaves.append(Leaf(x, loc, path, 'soff', 'ptr', v0.ptr.r, [v.ptr.off for v in vals]))
+            po = V(x)
+        if differs(lambda v: v.n) or (loc, path + (('s', 'len'),)) in force:
+            n = fresh('n')
+            leaves.append(Leaf(n, loc, path, 'slen', 'int', None, [v.n for v in vals]))
+            no = V(n)
+        return SliceV(PtrV(v0.ptr.r, po), no, v0.esz)
     if t is AdtV:
         if v0.fields is None:
             return v0
@@ -133,6 +159,44 @@ def generalise_value(self, M, vals, stores, loc, path, leaves, force, tid_hint=N
     if t is ArrV:
         return ArrV(v0.tid, v0.n)
     return TopV(tid_hint)
+
+
+def changed_leaves(self, loc, hv, bv, store, path=()):
+    """leaf addresses (loc, path) at which value bv (back edge) differs from hv (loop head)"""
+    out = []
+    if hv is None or bv is None:
+        return [(loc, path)] if (hv is None) != (bv is None) else []
+    if type(hv) is not type(bv):
+        return [(loc, path)]
+    if isinstance(hv, AdtV):
+        if hv.tid != bv.tid or hv.variant != bv.variant or (hv.fields is None) != (bv.fields is None):
+            return [(loc, path)]
+        if hv.fields is None:
+            return []
+        if len(hv.fields) != len(bv.fields):
+            return [(loc, path)]
+        for i, (a, b) in enumerate(zip(hv.fields, bv.fields)):
+            out += changed_leaves(self, loc, a, b, store, path + (('f', i),))
+        return out
+    if isinstance(hv, UnionV):
+        if hv.tid != bv.tid or hv.active != bv.active or (hv.val is None) != (bv.val is None):
+            return [(loc, path)]
+        if hv.val is None:
+            return []
+        return changed_leaves(self, loc, hv.val, bv.val, store, path + (('u', hv.active),))
+    if isinstance(hv, SliceV):
+        if hv.ptr.r != bv.ptr.r or hv.esz != bv.esz:
+            return [(loc, path)]
+        if store.nf(hv.ptr.off) != store.nf(bv.ptr.off):
+            out.append((loc, path + (('s', 'off'),)))
+        if store.nf(hv.n) != store.nf(bv.n):
+            out.append((loc, path + (('s', 'len'),)))
+        return out
+    if isinstance(hv, TopV):
+        return []
+    if hv.key(store) != bv.key(store):
+        return [(loc, path)]
+    return []
 
 
 def leaf_value_in(st, leaf):
@@ -230,7 +294,21 @@ def ref_terms(self, fr, M, leaf, leaves):
         walk(v)
         if len(refs) > 14:
             break
-    return refs
+    # values of the caller frames and heap objects (e.g. the start/end pointers a result must lie between)
+    if len(refs) <= 14:
+        for fid in sorted(M.frames, reverse=True):
+            if fid == fr.fid:
+                continue
+            for l, v in M.frames[fid].items():
+                walk(v)
+            if len(refs) > 18:
+                break
+    if len(refs) <= 18:
+        for o, v in M.heap.items():
+            walk(v, 1)
+            if len(refs) > 20:
+                break
+    return refs[:22]
 
 
 def tightest_lb(store, e, span=1 << 13):
@@ -272,11 +350,29 @@ def make_candidates(self, fr, M, leaves, states, step_consts, houdini):
                     cands.append(('le', at))
                     break
 
+    gen = {l.x for l in leaves}
+
+    def anchored(l):
+        """entry expression of a leaf if it is the same in every incoming state and free of generalised symbols"""
+        e0 = stores[0].nf(l.entry[0])
+        for i in range(1, n):
+            if stores[i].nf(l.entry[i]) != e0:
+                return None
+        if any(s_ in gen for s_ in e0.syms()):
+            return None
+        return e0
+
     for leaf in leaves:
         x = V(leaf.x)
         for r in ref_terms(self, fr, M, leaf, leaves):
             consider(x - r)
             consider(r - x)
+        if all(stores[i].entails_le(-leaf.entry[i]) for i in range(n)):
+            cands.append(('le', -x))            # x >= 0 (every unsigned value; checked like any candidate)
+        e0 = anchored(leaf)
+        if e0 is not None and houdini:
+            cands.append(('le', e0 - x))        # x >= entry value (monotone up)
+            cands.append(('le', x - e0))        # x <= entry value (monotone down)
         if leaf.kind == 'ptr':
             A = V(self.regions[leaf.region].A)
             for m in CONG_MODS:
@@ -285,15 +381,21 @@ def make_candidates(self, fr, M, leaves, states, step_consts, houdini):
     # pairs of generalised leaves: differences and sums
     for i, a in enumerate(leaves):
         for b in leaves[i + 1:]:
-            if a.kind == 'ptr' and b.kind == 'ptr' and a.region != b.region:
-                # offsets into different regions moving in lock-step (memcmp-like loops)
-                pass
             xa, xb = V(a.x), V(b.x)
             consider(xa - xb)
             consider(xb - xa)
             if a.kind == 'int' or b.kind == 'int':
                 consider(xa + xb)
                 consider(-xa - xb)
+            ea, eb = anchored(a), anchored(b)
+            if ea is not None and eb is not None and houdini:
+                # lock-step: difference / sum equal to their entry values
+                d = (xa - xb) - (ea - eb)
+                cands.append(('le', d))
+                cands.append(('le', -d))
+                sm = (xa + xb) - (ea + eb)
+                cands.append(('le', sm))
+                cands.append(('le', -sm))
     return cands
 
 
@@ -335,7 +437,7 @@ def merge_states(self, fr, b, states, force=frozenset(), houdini=False, step_con
         vals = [get_loc(s, loc) for s in states]
         if any(v is None for v in vals):
             continue
-        v = generalise_value(self, M, vals, stores, loc, (), leaves, loc in force)
+        v = generalise_value(self, M, vals, stores, loc, (), leaves, force)
         set_loc(M, loc, v)
     # make sure every frame of the call stack exists
     for fid in states[0].frames:
@@ -343,8 +445,16 @@ def merge_states(self, fr, b, states, force=frozenset(), houdini=False, step_con
     # ranges of the fresh symbols from the types are implied by the template bounds below only if
     # they were entailed; add the candidates
     cands = make_candidates(self, fr, M, leaves, states, step_consts, houdini) if leaves else []
+    extra = {l.x for l in leaves}
+    for c in cands:
+        if c[0] == 'le':
+            extra.update(c[1].syms())
+    gc_state(self, M, extra=extra)
     if not houdini:
         assume_cands(self, M, cands)
+    if self.opts.get('trace_loops'):
+        import sys as _s
+        print(f"[merge {fr.inst.path} bb{b}] {len(states)} states, leaves {[(l.loc, l.path, l.part, l.x) for l in leaves]}, cands {[c[1] if c[0]=='le' else ('div', c[1].x, c[2]) for c in cands]}", file=_s.stderr)
     return M, leaves, cands
 
 
@@ -396,8 +506,7 @@ def exec_loop(self, fr, h, entry_states):
     inst = fr.inst
     body = fr.loops[h]
     self.stats['loops'] += 1
-    live = fr.live[h] | fr.addr_taken
-    force = {('L', fr.fid, l) for l in syntactic_modified(self, fr, body, entry_states[0]) if l in live}
+    force = set()
     steps = loop_step_consts(self, inst, body)
     cands = None
     M = leaves = None
@@ -405,7 +514,7 @@ def exec_loop(self, fr, h, entry_states):
     changedF = True
     while True:
         rounds += 1
-        if rounds > 40:
+        if rounds > 60:
             from .interp import Unsupported
             raise Unsupported(f"loop analysis did not converge in {inst.key} bb{h}")
         if changedF:
@@ -415,29 +524,30 @@ def exec_loop(self, fr, h, entry_states):
         H = M.copy()
         assume_cands(self, H, cands)
         self.silent += 1
+        self.pinned.append(cand_syms(cands, leaves))
         try:
             res = run_body(self, fr, h, H.copy(), body)
         finally:
             self.silent -= 1
+            self.pinned.pop()
         self.stats['houdini_rounds'] += 1
-        # locations changed by the body but not generalised
+        # leaves changed by the body but not generalised
         newF = set()
         for B in res['back']:
             for loc in live_locations(self, fr, h, H):
-                if loc in force:
-                    continue
-                hv, bv = get_loc(H, loc), get_loc(B, loc)
-                if hv is None or bv is None:
-                    if (hv is None) != (bv is None):
-                        newF.add(loc)
-                    continue
-                if hv.key(B.store) != bv.key(B.store):
-                    newF.add(loc)
+                for lf in changed_leaves(self, loc, get_loc(H, loc), get_loc(B, loc), B.store):
+                    if lf not in force:
+                        newF.add(lf)
         if newF:
             force |= newF
             changedF = True
             continue
         failed = [c for c in cands if any(not cand_holds(self, c, B, leaves) for B in res['back'])]
+        if self.opts.get('trace_loops'):
+            import sys as _s
+            print(f"[loop {inst.path} bb{h}] round {rounds}: {len(leaves)} leaves {[ (l.loc, l.path, l.part) for l in leaves]}, {len(cands)} cands, {len(res['back'])} back states, {len(failed)} dropped", file=_s.stderr)
+            for c in failed:
+                print('     drop', c[0], c[1] if c[0] == 'le' else (c[1].x, c[2]), file=_s.stderr)
         if failed:
             fs = set(id(c) for c in failed)
             cands = [c for c in cands if id(c) not in fs]
@@ -448,7 +558,11 @@ def exec_loop(self, fr, h, entry_states):
         self.loop_invs.append((inst.key, h, len(leaves), len(cands)))
     H = M.copy()
     assume_cands(self, H, cands)
-    res = run_body(self, fr, h, H, body)
+    self.pinned.append(cand_syms(cands, leaves))
+    try:
+        res = run_body(self, fr, h, H, body)
+    finally:
+        self.pinned.pop()
     return {'exits': res['exits'], 'returns': res['returns']}
 
 
@@ -489,3 +603,103 @@ def merge_by_shape(self, fr, b, states):
     for sig, sts in groups.items():
         out.append(sts[0] if len(sts) == 1 else merge(self, fr, b, sts))
     return out
+
+
+def value_syms(v, acc, depth=0):
+    if isinstance(v, IntV):
+        for s_, _ in v.e.t:
+            acc.add(s_)
+    elif isinstance(v, PtrV):
+        acc.add(('r', v.r))
+        for s_, _ in v.off.t:
+            acc.add(s_)
+    elif isinstance(v, SliceV):
+        value_syms(v.ptr, acc)
+        for s_, _ in v.n.t:
+            acc.add(s_)
+    elif isinstance(v, AdtV):
+        if v.fields is not None:
+            for f in v.fields:
+                value_syms(f, acc, depth + 1)
+    elif isinstance(v, UnionV):
+        if v.val is not None:
+            value_syms(v.val, acc, depth + 1)
+    elif isinstance(v, BoolV):
+        atom_syms(v.a, acc)
+    elif isinstance(v, TermV):
+        term_syms(v.t, acc)
+    elif isinstance(v, RefV):
+        pass
+
+
+def atom_syms(a, acc):
+    if a[0] in ('le', 'eq', 'ne'):
+        for s_, _ in a[1].t:
+            acc.add(s_)
+    elif a[0] in ('and', 'or'):
+        atom_syms(a[1], acc)
+        atom_syms(a[2], acc)
+    elif a[0] == 'pred':
+        term_syms(a[3], acc)
+
+
+def term_syms(t, acc):
+    if isinstance(t, tuple):
+        for x in t:
+            term_syms(x, acc)
+    elif isinstance(t, LinExpr):
+        for s_, _ in t.t:
+            acc.add(s_)
+
+
+def cand_syms(cands, leaves):
+    """symbols an enclosing loop's invariant candidates talk about: they must survive
+    garbage collection inside the loop body, or the invariant cannot be re-established"""
+    out = {l.x for l in leaves}
+    for c in cands:
+        if c[0] == 'le':
+            out.update(c[1].syms())
+    return out
+
+
+def gc_state(self, st, extra=()):
+    """drop constraints on symbols that no live value, ghost fact or region mentions"""
+    acc = set(extra)
+    for pset in self.pinned:
+        acc |= pset
+    for fid, locs in st.frames.items():
+        for v in locs.values():
+            value_syms(v, acc)
+    for v in st.heap.values():
+        value_syms(v, acc)
+    for k, d in st.ghost.items():
+        if isinstance(d, dict):
+            for kk, vv in d.items():
+                term_syms(kk, acc)
+                if isinstance(vv, int) and k in ('bytes', 'decomp'):
+                    acc.add(vv)
+                elif isinstance(vv, tuple):
+                    term_syms(vv, acc)
+                if isinstance(kk, int):
+                    acc.add(kk)
+    live = set()
+    for x in acc:
+        if isinstance(x, tuple) and x[0] == 'r':
+            reg = self.regions[x[1]]
+            live.add(reg.A)
+            live.add(reg.L)
+        elif isinstance(x, int):
+            live.add(x)
+    # every region's A/L stay live (cheap, and obligations refer to them)
+    for reg in self.regions.values():
+        live.add(reg.A)
+        live.add(reg.L)
+    # raw symbols defined by equalities expand to their right-hand sides
+    more = set()
+    for x in live:
+        e = st.store.eqs.get(x)
+        if e is not None:
+            for s_, _ in e.t:
+                more.add(s_)
+    live |= more
+    st.store.drop_dead(live)
